@@ -8,14 +8,14 @@ ID = 'C13'
 LEVEL = 'exploration'
 TIERS = {'quick': 12000, 'thorough': 600000}
 RULE = ('seeded sequences (length <= 6) over {connect-ok, connect-fail(transport refused | transport timeout | CNXN never answered | AUTH without keys | '
-        'non-token challenge), close, shell, exec_out, streaming_shell, root, reboot, list, stat, pull(path|BytesIO), push(path|BytesIO)} with empty and '
+        'non-token challenge), close, shell, exec_out, streaming_shell, root, reboot, list, stat, pull(path|BytesIO), push(path|BytesIO|directory), streaming_shell generators created in one state and iterated in another} with empty and '
         'non-empty device paths, sync and async, against a two-state reference model of `available`; in the not-connected state every operation must raise '
         'AdbConnectionError (empty path: DevicePathInvalidError, in either state), the transport write log must not grow by one byte, no transport call may be '
         'made and the pull destination must not exist afterwards. non-trivial = the sequence contains a failed connect followed by an operation; '
         'distinct = event-log digests')
 ASSUMPTIONS = ['the <=5-step space is sampled by seed, not enumerated']
-EXPECT_PROBES = {'all': ['c13_failed_connect_then_op', 'c13_op_after_close', 'c13_empty_path', 'c13_reconnect_ok']}
-OPS = ['shell', 'exec_out', 'streaming_shell', 'root', 'reboot', 'list', 'stat', 'pull', 'push']
+EXPECT_PROBES = {'all': ['c13_failed_connect_then_op', 'c13_op_after_close', 'c13_empty_path', 'c13_reconnect_ok', 'c13_deferred_generator']}
+OPS = ['shell', 'exec_out', 'streaming_shell', 'streaming_shell', 'root', 'reboot', 'list', 'stat', 'pull', 'push']
 OWN = ('wrong-result', 'unexpected-exception', 'timeout-instead-of-result', 'missing-exception', 'wrong-exception', 'hang', 'no-termination',
        'bytes-written-unconnected', 'transport-call-unconnected', 'file-created-unconnected', 'available-wrong', 'push-content', 'push-missing', 'push-incomplete')
 FAILS = ['refused', 'timeout', 'silent', 'noauthkeys', 'badchallenge']
@@ -69,10 +69,23 @@ def generate(seed, tier):
             elif k == 'pull':
                 op = {'op': 'pull', 'path': S.add_file(g, d, 500), 'dest': g.pick(['file', 'file', 'bytesio'])}
             else:
-                op = {'op': 'push', 'src': g.pick(['bytesio', 'file']), 'content': {'seed': g.int(0, 999), 'size': g.int(0, 3000), 'alpha': 'bin'}, 'path': '/data/t%d' % i, 'mtime': 9}
+                op = {'op': 'push', 'src': g.pick(['bytesio', 'file', 'dir']), 'content': {'seed': g.int(0, 999), 'size': g.int(0, 3000), 'alpha': 'bin'}, 'path': '/data/t%d' % i, 'mtime': 9}
+                if op['src'] == 'dir':
+                    del op['content']
+                    op['files'] = [{'name': 'f%d' % j, 'content': {'seed': g.int(0, 999), 'size': g.int(0, 300), 'alpha': 'bin'}} for j in range(g.int(0, 2))]
+                    d['cmds']['mkdir ' + op['path']] = {'content': {'size': 0}, 'cuts': []}
+                    d['cmds']['mkdir '] = {'content': {'size': 0}, 'cuts': []}
             if 'path' in op and g.chance(0.15):
                 op['path'] = ''
             op['rt'] = 2.0
+            if op['op'] == 'streaming_shell' and g.chance(0.5):
+                # the generator is created now and iterated later: the connection may change in between
+                ops.append({'op': 'ss_create', 'cmd': op['cmd'], 'decode': op['decode'], 'rt': 2.0})
+                if g.chance(0.6):
+                    ops.append({'op': 'close'} if g.chance(0.6) else {'op': 'connect', 'expect_connect': 'refused', 'rt': 0.5, 'tt': 0.2, 'at': 0.3})
+                    if ops[-1]['op'] == 'connect':
+                        plan.append('refused')
+                op = {'op': 'ss_consume', 'rt': 2.0}
             ops.append(op)
     d['auth'] = auth if any(a for a in auth) else None
     if d['auth'] is None:
@@ -107,7 +120,11 @@ def evaluate(case, tapes=None):
         elif k == 'close':
             connected = False
             last_connect_failed = False
+        elif k == 'ss_create':
+            pass
         else:
+            if k == 'ss_consume':
+                pr['c13_deferred_generator'] = 1
             if not connected:
                 if last_connect_failed:
                     failed_then_op = True
